@@ -78,6 +78,20 @@ def gen_scenario(rng):
     s.broken = sorted(i for i in range(s.num_servers) if rng.random() < 0.07)
     s.policy = rng.choice(["random", "random", "fifo", "lifo"])
     s.seed = rng.randrange(1 << 30)
+    if rng.random() < 0.3:
+        # duplicate-holder family: an earlier upload left every share on few servers; the new upload spreads
+        # duplicates over the servers that joined since, under a tight threshold, and one of the new holders
+        # fails during transfer (the share it held is still on the old server, the layout is not as happy)
+        s.num_servers = rng.randrange(2, 6)
+        s.n = rng.randrange(s.num_servers, s.num_servers + 2)
+        s.k = rng.randrange(1, 3)
+        s.happy = rng.randrange(max(1, s.num_servers - 1), s.num_servers + 1)
+        s.readonly, s.full, s.broken = [], [], []
+        s.pre_servers = sorted(rng.sample(range(s.num_servers), rng.randrange(1, max(2, s.num_servers - 1))))
+        s.pre_delete = rng.choice([0.0, 0.0, 0.3])
+        news = [i for i in range(s.num_servers) if i not in s.pre_servers] or [0]
+        s.faults = [(rng.choice(news), rng.choice(["write", "write", "close"]), rng.randrange(0, 4))
+                    for _ in range(rng.randrange(1, 3))]
     return s
 
 
